@@ -33,7 +33,18 @@ pub fn gen_scenario(r: &mut Rng, big: bool) -> Scenario {
     }
     if r.chance(1, 2) {
         args.push("-d".into());
-        args.push(r.range(1, 5).to_string());
+        let nd = r.range(1, 5);
+        args.push(nd.to_string());
+        // a loaded object whose name is not what a tidy loader would report: bytes that are not UTF-8, non-ASCII
+        // UTF-8, a 63-byte name (drawn from a side stream so that earlier case ids keep their meaning)
+        let mut r2 = Rng::new(r.0 ^ 0x6a09_e667_f3bc_c908);
+        if nd >= 2 && r2.chance(1, 3) {
+            let k = r2.range(1, nd - 1);
+            const DN: [&str; 5] = ["2f6c69622f6c6962fffec32e736f", "2f6c69622fc3a9c3a82e736f", "ff", "2f6c69622f6c6962e697a52e736f2e31",
+                "2f6161616161616161616161616161616161616161616161616161616161616161616161616161616161616161616161616161616161616161616161616161"];
+            args.push("-D".into());
+            args.push(format!("{}:{}", k, r2.pick(&DN)));
+        }
     }
     // a module with the linker's reserved gap inside it (r-x page, PROT_NONE page, rw- page of the same file):
     // an instruction pointer near the gap makes the 256-byte window run into unreadable memory
@@ -63,7 +74,13 @@ pub fn gen_scenario(r: &mut Rng, big: bool) -> Scenario {
             let k = r.range(1, nblock as u64);
             let v = *r.pick(&[0u64, u64::MAX, u64::MAX, 1, 8, 0x1000, 0x7fff_ffff_e008, u64::MAX - 7, u64::MAX & !0xfff, 0x8000_0000_0000_0000]);
             args.push("-w".into());
-            args.push(format!("{}:{}", k, v));
+            // … or inside the inaccessible guard pages in front of its own stack (a thread that overflowed its stack)
+            let mut r2 = Rng::new(r.0 ^ 0xbb67_ae85_84ca_a73b);
+            if r2.chance(1, 3) {
+                args.push(format!("{}:-{}", k, *r2.pick(&[8u64, 2040, 2048, 2056, 4096, 6000, 0x5010, 69000])));
+            } else {
+                args.push(format!("{}:{}", k, v));
+            }
         }
     }
     Scenario { args, nblock }
@@ -211,7 +228,7 @@ pub fn generate(prop: &str, seed: u64, tier: &str, out: &mut dyn std::io::Write)
             let dso = &t.desc["dso"];
             let dso_field = if dso["n"].as_u64().unwrap_or(0) > 0 {
                 let maps: Vec<String> = dso["maps"].as_array().unwrap().iter().map(|m| {
-                    format!("{}.{}.{}", m["l_addr"].as_u64().unwrap(), m["l_ld"].as_u64().unwrap(), crate::rng::hex(m["name"].as_str().unwrap().as_bytes()))
+                    format!("{}.{}.{}", m["l_addr"].as_u64().unwrap(), m["l_ld"].as_u64().unwrap(), { let nh = m["name_hex"].as_str().unwrap(); if nh.is_empty() { "-".to_string() } else { nh.to_string() } })
                 }).collect();
                 format!(" dso={}:{}:{}", dso["dyn"].as_u64().unwrap(), dso["r_debug"].as_u64().unwrap(), maps.join(";"))
             } else {
